@@ -121,14 +121,26 @@ func isEmptyHash(hash common.Hash) bool {
 
 // decodeEmptyInterface decode an interface which contains an empty interface{}. its encoded data is [192], same as rlp([])
 func decodeEmptyInterface(s *rlp.Stream) (interface{}, error) {
-	_, size, _ := s.Kind()
-	if size > 0 {
-		log.Errorf("expected nil, got data size %d", size)
-		return nil, types.ErrWrongChangeLogData
+	isNil, err := decodeNil(s)
+	if err == nil && !isNil {
+		log.Errorf("expected nil, got data")
+		err = types.ErrWrongChangeLogData
 	}
-	var result interface{}
-	err := s.Decode(&result)
 	return nil, err
+}
+
+// decodeNil consumes the next value if it is the encoding of a nil interface{}: the empty list [192]. Nothing else stands
+// for nil. An empty string or a single byte, which have size zero too, would be written back as [192]: the hash of the
+// decoded log would not be the hash of the received bytes.
+func decodeNil(s *rlp.Stream) (bool, error) {
+	kind, size, err := s.Kind()
+	if err != nil || kind != rlp.List || size != 0 {
+		return false, err
+	}
+	if _, err = s.List(); err != nil {
+		return false, err
+	}
+	return true, s.ListEnd()
 }
 
 // decodeBigInt decode an interface which contains an big.Int
@@ -199,10 +211,7 @@ func decodeString(s *rlp.Stream) (interface{}, error) {
 }
 
 func decodeAsset(s *rlp.Stream) (interface{}, error) {
-	_, size, _ := s.Kind()
-	if size <= 0 {
-		var result interface{}
-		err := s.Decode(&result)
+	if isNil, err := decodeNil(s); isNil || err != nil {
 		return nil, err
 	} else {
 		var result types.Asset
@@ -214,10 +223,7 @@ func decodeAsset(s *rlp.Stream) (interface{}, error) {
 }
 
 func decodeEquity(s *rlp.Stream) (interface{}, error) {
-	_, size, _ := s.Kind()
-	if size <= 0 {
-		var result interface{}
-		err := s.Decode(&result)
+	if isNil, err := decodeNil(s); isNil || err != nil {
 		return nil, err
 	} else {
 		var result types.AssetEquity
@@ -228,10 +234,7 @@ func decodeEquity(s *rlp.Stream) (interface{}, error) {
 }
 
 func decodeSigners(s *rlp.Stream) (interface{}, error) {
-	_, size, _ := s.Kind()
-	if size <= 0 {
-		var result interface{}
-		err := s.Decode(&result)
+	if isNil, err := decodeNil(s); isNil || err != nil {
 		return nil, err
 	} else {
 		result := make(types.Signers, 0)
@@ -241,10 +244,7 @@ func decodeSigners(s *rlp.Stream) (interface{}, error) {
 }
 
 func decodeProfileChangeLogExtra(s *rlp.Stream) (interface{}, error) {
-	_, size, _ := s.Kind()
-	if size <= 0 {
-		var result interface{}
-		err := s.Decode(&result)
+	if isNil, err := decodeNil(s); isNil || err != nil {
 		return nil, err
 	} else {
 		var result ProfileChangeLogExtra
